@@ -11,22 +11,23 @@ use crate::val::Val;
 use crate::world::{self, CbFault};
 use bpaf::OptionParser;
 
-/// Step budget per operation (T5). Measured on the unchanged tree (quick and thorough tiers,
-/// numbers in the evidence file): an operation on a command line of L = (bytes + items + 8)
-/// costs at most ~25 * L^2 ticks (the 2 KiB clusters are quadratic because every repetition
-/// clones the consumption ledger), at most ~40 000 ticks when L < 200, and documentation
-/// rendering at most ~5 000. The budget is 5*10^7 + 2000 * L^2: more than 1000 times the worst
-/// ordinary command line and about 80 times the worst quadratic coefficient, so a legitimate
-/// slow parse cannot trip it, while an operation that stops making progress is reported after a
-/// bounded number of steps instead of hanging the check.
-pub const BUDGET_BASE: u64 = 50_000_000;
-pub const BUDGET_PER_L2: u64 = 2000;
+/// Step budget per operation (T5). Measured on the unchanged tree (numbers in the evidence
+/// files): with L = (argv bytes + items + 8) an ordinary command line (L < 200) costs at most
+/// ~40 000 ticks and documentation rendering ~5 000, but repetitions over adjacent groups are
+/// legitimately cubic in the number of items - the worst operation seen cost 0.28 * L^3 ticks
+/// (a cluster of 1 164 short flags against many(alt[many(adjacent(..)) ..]); 5.6 * 10^8 ticks).
+/// Clusters are therefore kept to 100..300 characters and the budget is 10^8 + 50 * L^3: more
+/// than 2 000 times the worst ordinary command line and about 180 times the worst cubic
+/// coefficient, so a legitimate slow parse cannot trip it, while an operation that stops
+/// making progress is reported after a bounded number of steps instead of hanging the check.
+pub const BUDGET_BASE: u64 = 100_000_000;
+pub const BUDGET_PER_L3: u64 = 50;
 
 pub fn budget_for(op: &Op) -> u64 {
     match op {
         Op::Run { argv, .. } | Op::Launch { argv, .. } => {
             let l: u64 = argv.iter().map(|a| a.len() as u64 + 1).sum::<u64>() + 8;
-            BUDGET_BASE + BUDGET_PER_L2 * l * l
+            BUDGET_BASE + BUDGET_PER_L3 * l * l * l
         }
         _ => BUDGET_BASE,
     }
@@ -185,10 +186,35 @@ pub fn undeclared(declared: &[&'static str]) -> Vec<&'static str> {
         .collect()
 }
 
-/// flip every undeclared variable, in the simulated store and in the worker's real environment
+thread_local! {
+    static FLIP_WINDOW: std::cell::Cell<usize> = std::cell::Cell::new(0);
+}
+
+/// the slice of undeclared names whose *real* variables are flipped this time: setenv is slow
+/// and leaks, so each scramble touches a rotating window of 8 real variables (all of them in
+/// the simulated store)
+fn real_window(names: &[&'static str], advance: bool) -> Vec<&'static str> {
+    if names.is_empty() {
+        return Vec::new();
+    }
+    let w = FLIP_WINDOW.with(|c| {
+        let v = c.get();
+        if advance {
+            c.set(v.wrapping_add(1));
+        }
+        v
+    });
+    let start = (w * 8) % names.len();
+    (0..8.min(names.len()))
+        .map(|i| names[(start + i) % names.len()])
+        .collect()
+}
+
+/// flip every undeclared variable in the simulated store, and a rotating window of them in the
+/// worker's real environment
 pub fn scramble_undeclared(declared: &[&'static str]) -> std::collections::BTreeMap<Tok, Tok> {
     let names = undeclared(declared);
-    world::real_env_flip(&names);
+    world::real_env_flip(&real_window(&names, false));
     world::with(|s| {
         let saved = s.env.clone();
         for name in &names {
@@ -202,7 +228,7 @@ pub fn scramble_undeclared(declared: &[&'static str]) -> std::collections::BTree
 }
 
 pub fn unscramble(declared: &[&'static str], saved: std::collections::BTreeMap<Tok, Tok>) {
-    world::real_env_flip(&undeclared(declared));
+    world::real_env_flip(&real_window(&undeclared(declared), true));
     world::with(|s| s.env = saved);
 }
 
@@ -333,7 +359,7 @@ pub fn run_case(case: &Case, stats: &mut Stats) -> RunReport {
             if l < 200 {
                 stats.max("ticks.max_short_argv", first.ticks);
             }
-            if std::env::var("SIM_DEBUG_TICKS").is_ok() && first.ticks > 3_000_000 {
+            if crate::DEBUG_TICKS.load(std::sync::atomic::Ordering::Relaxed) && first.ticks > 3_000_000 {
                 eprintln!("TICKS {} l={} run={} op={}", first.ticks, l, case.run, ix);
             }
         } else {
@@ -445,7 +471,13 @@ pub fn run_case(case: &Case, stats: &mut Stats) -> RunReport {
             );
         }
         // ---- T2 / T6: fresh twin
-        let fresh = {
+        // The twin normally runs on the worker's own thread; after a panic has unwound
+        // through bpaf anywhere in this run, and for a fixed sample of the other operations,
+        // it runs on a brand new thread, where thread-local leftovers do not exist either
+        // (creating a thread costs milliseconds in this VM, hence the sample).
+        let any_unwound = live.iter().any(|l| l.unwound);
+        let fresh = if any_unwound || (case.run + ix as u64) % 32 == 0 {
+            stats.bump("probe.twin_on_fresh_thread");
             let opts = live[p].opts.clone();
             let op2 = op.clone();
             let env = world::with(|s| s.env.clone());
@@ -453,6 +485,9 @@ pub fn run_case(case: &Case, stats: &mut Stats) -> RunReport {
                 let twin = exec::build_unchecked(&opts);
                 exec_op(&op2, &twin)
             })
+        } else {
+            let twin = exec::build_unchecked(&live[p].opts);
+            exec_op(op, &twin)
         };
         let rule = if live[p].unwound && !matches!(first.outcome, Outcome::Injected(_)) {
             stats.bump("rule.T6.evaluated");
